@@ -16,6 +16,7 @@ func init() {
 	zzsv.Register("ZZ_C07_Context", ZZ_C07_Context)
 	zzsv.Register("ZZ_C07_DeepRecursion", ZZ_C07_DeepRecursion)
 	zzsv.Register("ZZ_C07_LongHistory", ZZ_C07_LongHistory)
+	zzsv.Register("ZZ_C07_ObjectHistory", ZZ_C07_ObjectHistory)
 }
 
 type zzC07Obj struct {
@@ -242,4 +243,58 @@ func ZZ_C07_LongHistory(sv *zzsv.T) {
 		zzDescribe(sv, "used", o1, e1)
 		zzCompareTwo(sv, "C07.long", used, fresh, o1, o2, e1, e2, nil, nil, []string{"n", "x"})
 	}
+}
+
+// ZZ_C07_ObjectHistory: the objects of earlier runs are part of the history
+// too: structs, pointers and maps of other shapes (a key the current object
+// lacks, the same type with other values, the same pointer changed in
+// place), some of those runs failing inside a function - the last run agrees
+// with a fresh evaluator's run on the same object.
+func ZZ_C07_ObjectHistory(sv *zzsv.T) {
+	scripts := []string{
+		"n = n + 1; if (G) { return F + n; } return 0 - F;",
+		"function rd() { return G; } n = n + 1; if (F < 0) { panic(\"neg\"); } r = rd(); if (r) { return F; } return n;",
+		"n = n + 1; foreach k in [1, 2] { if (k == F) { return G; } } return F;",
+	}
+	src := scripts[sv.Choice("script", len(scripts))]
+	sv.Note("script", src)
+	mkObj := func(name string, shape int) interface{} {
+		f := sv.Int64(name + ".F")
+		sv.Assume(f >= -1 && f <= 2)
+		g := sv.Int64(name + ".G")
+		sv.Assume(g >= 0 && g <= 1)
+		switch shape {
+		case 0:
+			return zzC07Obj{F: f, Z: g}
+		case 1:
+			return map[string]interface{}{"F": f, "G": g}
+		case 2:
+			return map[string]interface{}{"F": f}
+		default:
+			return &struct {
+				G int64
+				F int64
+			}{g, f}
+		}
+	}
+	used := New(src)
+	used.SetVariable("n", &object.Integer{Value: 0})
+	sv.Assume(used.Prepare() == nil)
+	k := sv.Param("objhistory", 2, 3)
+	for i := 0; i < k; i++ {
+		o := mkObj("h", sv.Choice("shape", 4))
+		_, err := used.Execute(o)
+		sv.Observe("history.err", err != nil)
+	}
+	last := mkObj("last", sv.Choice("lastshape", 4))
+	fresh := New(src)
+	fresh.SetVariable("n", &object.Integer{Value: int64(k)})
+	if r, ok := used.GetVariable("r").(*object.Integer); ok {
+		fresh.SetVariable("r", &object.Integer{Value: r.Value})
+	}
+	sv.Assume(fresh.Prepare() == nil)
+	o1, e1 := used.Execute(last)
+	o2, e2 := fresh.Execute(last)
+	zzDescribe(sv, "used", o1, e1)
+	zzCompareTwo(sv, "C07.objects", used, fresh, o1, o2, e1, e2, nil, nil, []string{"n"})
 }
